@@ -106,7 +106,9 @@ def run(ctx):
                 as_list = nsname != "jax" and ctx.rng.random() < 0.4
                 if kind == "array":
                     il = idx_list("array", m, ctx.rng)
-                    s = s[list(il)] if as_list else s[np.asarray(il)]
+                    # some of the indices are written from the end (i - m names the same row as i)
+                    il_given = [i - m if ctx.rng.random() < 0.25 else i for i in il]
+                    s = s[list(il_given)] if as_list else s[np.asarray(il_given)]
                     ops.append(("IList", il))
                     cur_idx = [cur_idx[i] for i in il]
                 elif kind == "mask":
